@@ -63,6 +63,25 @@ func c10FHIRAlphabet() []c10Item {
 	}
 }
 
+// c10ValueLess: primitive-typed elements without a value to compare; equal copies are one class
+func c10ValueLess() []c10Item {
+	q := func(unit string) *dtpb.Quantity {
+		return &dtpb.Quantity{Unit: fhir.String(unit), System: &dtpb.Uri{Value: "http://unitsofmeasure.org"}, Code: &dtpb.Code{Value: unit}}
+	}
+	absent := func() []*dtpb.Extension {
+		return []*dtpb.Extension{{Url: &dtpb.Uri{Value: "http://hl7.org/fhir/StructureDefinition/data-absent-reason"}, Value: &dtpb.Extension_ValueX{Choice: &dtpb.Extension_ValueX_Code{Code: &dtpb.Code{Value: "unknown"}}}}}
+	}
+	return []c10Item{
+		{"q.mg", q("mg"), "q.mg", "Quantity"},
+		{"q.mg'", q("mg"), "q.mg", "Quantity"},
+		{"q.kg", q("kg"), "q.kg", "Quantity"},
+		{"dec.absent", &dtpb.Decimal{Extension: absent()}, "dec.absent", "Decimal"},
+		{"dec.absent'", &dtpb.Decimal{Extension: absent()}, "dec.absent", "Decimal"},
+		{"str.absent", &dtpb.String{Extension: absent()}, "str.absent", "String"},
+		{"f.a", fhir.String("a"), "a", "String"},
+	}
+}
+
 func c10Alphabet() []c10Item {
 	return []c10Item{
 		{"i1", system.Integer(1), "num1", "Integer"},
@@ -660,6 +679,94 @@ func init() {
 						return out
 					}
 					setCase(r, dec(i/n), dec(i%n))
+				}},
+				{Name: "set-functions-value-less-primitives", N: c10Count(len(c10ValueLess()), 3) * c10Count(len(c10ValueLess()), 1), Note: "collections of length <=3 over primitive-typed elements that have no value to compare (a Quantity with only a unit, twice as equal copies and once with another unit; a decimal and a string carrying only an extension, each twice) next to a string with a value, x arguments of length <=1: distinct / isDistinct / exclude / intersect treat equal copies as one class", Run: func(i int, r *core.Rec) {
+					al := c10ValueLess()
+					n := c10Count(len(al), 1)
+					dec := func(k int) []c10Item {
+						var out []c10Item
+						for _, x := range c10Seq(k, len(al)) {
+							out = append(out, al[x])
+						}
+						return out
+					}
+					c, d := dec(i/n), dec(i%n)
+					setCase(r, c, d)
+					if i%n != 0 {
+						return
+					}
+					env := c10Env(c)
+					classes := map[string]bool{}
+					for _, it := range c {
+						classes[it.cls] = true
+					}
+					rd := run(r, "%c.distinct().count()", env, nil)
+					ri := run(r, "%c.isDistinct()", env, nil)
+					rs := run(r, "%c.exclude(%c).count()", env, nil)
+					r.Nontrivial("value-less", c10Ids(c), rd.String(), ri.String(), rs.String())
+					bi, okb := c10Boolean(ri)
+					if !(rd.OK() && len(rd.Coll) == 1 && rd.Coll[0] == system.Integer(int32(len(classes)))) || !okb || (bi == "true") != (len(classes) == len(c)) {
+						r.Fail(c10Key("distinct", "value-less-primitives", lenClass(len(c)), c10Disc(rd)), core.W{"c": c10Ids(c), "distinct().count()": rd.String(), "isDistinct()": ri.String(), "classes": len(classes)})
+					}
+					if !(rs.OK() && len(rs.Coll) == 1 && rs.Coll[0] == system.Integer(0)) {
+						r.Fail(c10Key("exclude", "value-less-primitives", "c.exclude(c)", c10Disc(rs)), core.W{"c": c10Ids(c), "exclude(c).count()": rs.String()})
+					}
+				}},
+				{Name: "select-over-mixed-types", N: c10Count(4, 3), Note: "all input collections of length <=3 over {Patient with birthDate, Patient without, Observation, Questionnaire} x 6 element names x {select(n), select(n).count(), select(n).empty(), where(true).select(n)}: the in-order concatenation of n over the items, a name that is no element of an item's type contributing nothing unless that holds for every item", Run: func(i int, r *core.Rec) {
+					mk := []func() fhir.Resource{
+						func() fhir.Resource { p := lib.Patient(); return p },
+						func() fhir.Resource {
+							p := lib.Patient()
+							p.BirthDate, p.Active = nil, nil
+							return p
+						},
+						func() fhir.Resource { return lib.Observation() },
+						func() fhir.Resource { return lib.Questionnaire() },
+					}
+					var in []fhir.Resource
+					var ids []string
+					for _, k := range c10Seq(i, len(mk)) {
+						in = append(in, mk[k]())
+						ids = append(ids, fmt.Sprint(k))
+					}
+					for _, n := range []string{"birthDate", "active", "status", "subject", "id", "gender"} {
+						var want []any
+						invalid := 0
+						for _, res := range in {
+							one := lib.Run(n, []fhir.Resource{res}, nil)
+							r.Eval()
+							if one.Err != nil {
+								invalid++
+								continue
+							}
+							for _, v := range one.Coll {
+								want = append(want, v)
+							}
+						}
+						wantErr := len(in) > 0 && invalid == len(in)
+						r.State(fmt.Sprintf("select-mixed|invalid=%v|values=%v", invalid > 0, len(want) > 0))
+						for _, form := range []string{"select(N)", "where(true).select(N)", "select(N).count()", "select(N).empty()"} {
+							src := strings.Replace(form, "N", n, 1)
+							got := lib.Run(src, in, nil)
+							r.Eval()
+							r.Nontrivial(strings.Join(ids, ","), src, got.String())
+							ok := false
+							switch {
+							case wantErr:
+								ok = got.Err != nil
+							case got.Err != nil:
+							case strings.HasSuffix(form, "count()"):
+								ok = len(got.Coll) == 1 && got.Coll[0] == system.Integer(int32(len(want)))
+							case strings.HasSuffix(form, "empty()"):
+								ok = len(got.Coll) == 1 && got.Coll[0] == system.Boolean(len(want) == 0)
+							default:
+								ok = lib.ShowColl(got.Coll) == lib.ShowColl(want)
+							}
+							if !ok {
+								r.Fail(c10Key("select", "mixed-types", form, fmt.Sprintf("some-item-lacks-the-name=%v,values=%v", invalid > 0, len(want) > 0), c10Disc(got)), core.W{"inputs": ids, "src": src, "got": core.Short(got.String(), 200), "want": core.Short(lib.ShowColl(want), 200), "want_error": wantErr})
+							}
+						}
+					}
 				}},
 				{Name: "set-functions", N: nPair * nPair, Note: fmt.Sprintf("all ordered pairs of collections of length <=%d (%d^2) x {exclude, intersect}", pairLen, nPair), Run: func(i int, r *core.Rec) {
 					setCase(r, decode(i/nPair), decode(i%nPair))
